@@ -85,12 +85,12 @@ type Trace struct {
 
 // System describes how to check traces of one spec.
 type System struct {
-	Name     string            // module name, e.g. "locksvc"
-	SpecPath string            // absolute path of the .tla file in /repo
-	Vars     []string          // all variables of the translation, in the order of `vars`
-	Consts   map[string]string // CONSTANT assignments for the cfg (model values: name = name)
+	Name     string                   // module name, e.g. "locksvc"
+	SpecPath string                   // absolute path of the .tla file in /repo
+	Vars     []string                 // all variables of the translation, in the order of `vars`
+	Consts   map[string]string        // CONSTANT assignments for the cfg (model values: name = name)
 	Rewrite  func(spec string) string // optional scratch-copy rewrite (e.g. CHOOSE -> existential), listed in evidence
-	Extra    string            // extra definitions appended to the trace module
+	Extra    string                   // extra definitions appended to the trace module
 	// Retranslate: the shipped TLA+ translation is stale with respect to the file's own PlusCal
 	// algorithm (the block PGo generated together with the Go code): run the PlusCal translator
 	// (pcal, tla2tools) on the scratch copy first, so Next is the translation of that algorithm
@@ -230,4 +230,80 @@ func Check(sys System, traces []Trace, workDir string) (*Verdict, string, error)
 		}
 	}
 	return nil, o, fmt.Errorf("TLC did not complete (%v)", runErr)
+}
+
+// AssertionFails asks TLC whether action(self), evaluated in the recorded state pre, runs into a
+// failing assert of the specification (some branch of the action's nondeterminism does). It is
+// used when the generated Go reported an assertion failure at that label from that state:
+// the specification must fail there too.
+func AssertionFails(sys System, pre State, action, self, workDir string) (bool, string, error) {
+	if err := os.MkdirAll(workDir, 0o755); err != nil {
+		return false, "", err
+	}
+	spec, err := os.ReadFile(sys.SpecPath)
+	if err != nil {
+		return false, "", err
+	}
+	text := string(spec)
+	if sys.Rewrite != nil {
+		text = sys.Rewrite(text)
+	}
+	if err := os.WriteFile(filepath.Join(workDir, sys.Name+".tla"), []byte(text), 0o644); err != nil {
+		return false, "", err
+	}
+	if sys.Retranslate {
+		pc := exec.Command("java", "-XX:+UseSerialGC", "-XX:TieredStopAtLevel=1", "-cp", "/opt/veriftools/tla/tla2tools.jar", "pcal.trans", "-nocfg", sys.Name+".tla")
+		pc.Dir = workDir
+		if o, err := pc.CombinedOutput(); err != nil || !strings.Contains(string(o), "Translation completed") {
+			return false, string(o), fmt.Errorf("pcal translation of %s failed: %v", sys.Name, err)
+		}
+	}
+	mod := sys.Name + "_assert"
+	var b strings.Builder
+	fmt.Fprintf(&b, "---- MODULE %s ----\nEXTENDS %s, TLC\n\n", mod, sys.Name)
+	b.WriteString("AInit == ")
+	for i, v := range sys.Vars {
+		e, ok := pre[v]
+		if !ok {
+			return false, "", fmt.Errorf("state lacks spec variable %q", v)
+		}
+		if i > 0 {
+			b.WriteString("         ")
+		}
+		fmt.Fprintf(&b, "/\\ %s = %s\n", v, e)
+	}
+	fmt.Fprintf(&b, "\nANext == %s(%s)\n", action, self)
+	b.WriteString(sys.Extra)
+	b.WriteString("\n====\n")
+	if err := os.WriteFile(filepath.Join(workDir, mod+".tla"), []byte(b.String()), 0o644); err != nil {
+		return false, "", err
+	}
+	var cfg strings.Builder
+	cfg.WriteString("INIT AInit\nNEXT ANext\nCHECK_DEADLOCK FALSE\nCONSTANTS\n")
+	names := make([]string, 0, len(sys.Consts))
+	for k := range sys.Consts {
+		names = append(names, k)
+	}
+	sort.Strings(names)
+	for _, k := range names {
+		fmt.Fprintf(&cfg, "  %s = %s\n", k, sys.Consts[k])
+	}
+	if err := os.WriteFile(filepath.Join(workDir, mod+".cfg"), []byte(cfg.String()), 0o644); err != nil {
+		return false, "", err
+	}
+	cmd := exec.Command("java", "-XX:+UseSerialGC", "-XX:TieredStopAtLevel=1", "-XX:CICompilerCount=1", "-Xshare:auto", "-Xss16m", "-cp", "/opt/veriftools/tla/tla2tools.jar", "tlc2.TLC",
+		"-config", mod+".cfg", "-workers", "1", "-metadir", filepath.Join(workDir, "states"), "-noGenerateSpecTE", mod+".tla")
+	cmd.Dir = workDir
+	var out bytes.Buffer
+	cmd.Stdout = &out
+	cmd.Stderr = &out
+	runErr := cmd.Run()
+	o := out.String()
+	if strings.Contains(o, "The first argument of Assert evaluated to FALSE") {
+		return true, o, nil
+	}
+	if strings.Contains(o, "Model checking completed. No error has been found") || strings.Contains(o, "states generated") && !strings.Contains(o, "Error:") {
+		return false, o, nil
+	}
+	return false, o, fmt.Errorf("TLC did not complete (%v)", runErr)
 }
